@@ -513,6 +513,12 @@ struct C12 : vr::Driver {
       for (auto bs : bases)
         for (auto sg : signs)
           for (auto sf : sufs) numStrings.push_back(std::string(sg) + bs + sf);
+      // multi-component sizes whose SUM crosses 2^63 / 2^64 although every component fits
+      const char* multi[] = {"8388607T 1T", "8388607T 1023G 1023M 1023K 1023", "8388607T 1023G 1023M 1023K 1024", "4194304T 4194304T", "4194303T 4194304T",
+                             "8388608T 8388608T", "16777215T 1T 512M", "16777215T 1T", "8388607T 8388607T 2T", "9223372036854775807 1", "9223372036854775806 1",
+                             "4611686018427387904 4611686018427387904", "4611686018427387904 4611686018427387903", "18446744073709551615 1", "1 18446744073709551615",
+                             "8191P", "7E", "8388607.5T", "8388607.999999T 1G", "1T 1T 1T 1T 1T 1T 1T 1T", "0.5K 0.5K", "1K1", "1K 1", "1 1K"};
+      for (auto m : multi) numStrings.push_back(m);
     }
     buildIrCases();
     buildJsonDocs();
@@ -528,7 +534,7 @@ struct C12 : vr::Driver {
   std::string describe(size_t i) override {
     auto& it = items[i];
     switch (it.kind) {
-      case 'N': return "number/size strings #" + std::to_string(it.a) + ".." + std::to_string(it.b) + " of all strings len<=" + std::to_string(lenN) + " over '0159.e-+kMGt% naifx' followed by 374 boundary spellings (2^31, 2^32, 2^53, 2^63, 2^64, 10^18..10^20 +-1, both signs, 11 suffixes), e.g. '" + numStrings[it.a] + "'";
+      case 'N': return "number/size strings #" + std::to_string(it.a) + ".." + std::to_string(it.b) + " of all strings len<=" + std::to_string(lenN) + " over '0159.e-+kMGt% naifx' followed by 398 boundary spellings (2^31, 2^32, 2^53, 2^63, 2^64, 10^18..10^20 +-1, both signs, 11 suffixes), e.g. '" + numStrings[it.a] + "'";
       case 'I': return "IR cases #" + std::to_string(it.a) + ".." + std::to_string(it.b) + ", e.g. " + irCases[it.a].desc;
       case 'R': return "ruleset-level fields (post_action_delay, prekill_hook_timeout, silence-logs, names, empty groups)";
       case 'J': return "JSON documents #" + std::to_string(it.a) + ".." + std::to_string(it.b) + ", e.g. " + jsonDocs[it.a].first;
